@@ -303,6 +303,7 @@ def run(res, ctx):
         check_published(res, tables, pub_bl, scratch, drv)
         check_published_after_restricted_scan(res, pub_bl, scratch)
         check_published_pairs(res, pub_bl, scratch)
+        check_urls_in_reports(res, tables, scratch)
         check_registry_straight_after_import(res, pub_bl, scratch)
         check_naming(res, tables, fired, scratch, drv, thorough)
         check_get_url(res, tables, mgr, docs_utils, drv, snap)
@@ -466,6 +467,27 @@ def check_published(res, tables, pub, scratch, drv):
                     cases.append((p, kind, q, f"def helper_(x):\n    return {q}(x)\n\n\nimport {mod}\n", 2))
                     cases.append((p, kind, q, f"import importlib\n{top} = importlib.import_module('{top}')\nr_ = {q}(x)\n", 3))
                     cases.append((p, kind, q, f"r_ = {q}(x)\n", 1))
+    # the same triggers inside compound statements — the branch that RUNS when a guard is false, an except / finally / loop-else block, nested two deep: a published rule
+    # is enforced wherever the statement stands (seeded change C18-m15 dropped import rules anywhere below an `if TYPE_CHECKING:` statement, its `else:` branch included).
+    # Guard names: a fixed list plus the identifier-like literals of the lines by which /repo differs from the recorded commit.
+    import diffhints
+    gnames = ["TYPE_CHECKING", "typing.TYPE_CHECKING", "DEBUG", "__debug__", "sys.version_info >= (3, 8)", "os.environ.get('CI')"]
+    gnames += [h for h in diffhints.hints(C.REPO)["strings"] if re.fullmatch(r"[A-Za-z_][A-Za-z0-9_]*", h) and h not in gnames][:8]
+    def guards(g):
+        return [("else-branch", f"if {g}:\n    pass\nelse:\n", 3, 1), ("elif-branch", f"if {g}:\n    pass\nelif other_:\n", 3, 1), ("if-not", f"if not {g}:\n", 1, 1),
+                ("else-nested", f"if {g}:\n    pass\nelse:\n    if x_:\n        with y_:\n", 5, 3), ("except-block", f"try:\n    import nothing_\nexcept ImportError:\n", 3, 1),
+                ("finally-block", f"try:\n    {g}\nfinally:\n", 3, 1), ("loop-else", f"for i_ in {g}:\n    break\nelse:\n", 3, 1), ("if-body", f"if {g}:\n", 1, 1),
+                ("def-under-else", f"if {g}:\n    pass\nelse:\n    def late_():\n", 4, 2)]
+    base = list(cases)
+    k = 0
+    for (p, kind, q, prog, line) in base:
+        if "\n" in prog.rstrip("\n") and kind != "Call":
+            pass
+        gs = guards(gnames[k % len(gnames)])
+        for label, head, off, depth in (gs[k % len(gs)], gs[(k + 4) % len(gs)]):
+            body = "".join("    " * depth + ln + "\n" for ln in prog.rstrip("\n").split("\n"))
+            cases.append((p, kind, q, head + body, off + line))
+        k += 1
     out, errs = scan_batch(scratch, [c[3] for c in cases])
     model = None
     if drv:
@@ -523,6 +545,46 @@ def check_registry_straight_after_import(res, pub, scratch):
         res.violation("straight after import (no scanner built yet) the registry does not know its published rules, or a legacy profile naming rules by name selects other tests than by id",
                       {"kind": "history", "in_a_fresh_interpreter": "extension_loader.MANAGER.check_id / get_test_id for every published rule, then BanditConfig(legacy profile) + scan",
                        "unknown_ids": out["unknown_ids"][:10], "names_not_mapping_to_their_id": out["unmapped_names"][:10], "findings_profile_by_name": out["byname"], "findings_profile_by_id": out["byid"]})
+
+
+def check_urls_in_reports(res, tables, scratch):
+    """Every finding of a report resolves to ITS check: the JSON `more_info` is the registered documentation URL of the finding's test id, and in SARIF the descriptor a
+    finding points at (rules[ruleIndex]) has the finding's id, the check's name and that URL (seeded change C18-m16 sorted the SARIF rules by id after the indices
+    had been assigned: every finding resolved to another check's descriptor and documentation page).  Programs whose first findings do NOT come in id order."""
+    reg = {e["id"]: e for e in tables["plugins"] + tables["blacklist"]}
+    progs = ["import pickle\nimport subprocess\nsubprocess.Popen(c, shell=True)\npickle.loads(b)\nexec(c)\nassert x\npassword = 'pw'\nimport telnetlib\n",
+             "try:\n    f()\nexcept Exception:\n    pass\nimport hashlib\nhashlib.md5(d)\neval(e)\nimport os\nos.system(c)\nassert y\n",
+             "import yaml\nyaml.load(s)\nimport xml.sax\nxml.sax.parse(s)\nimport random\nrandom.random()\nimport ftplib\n"]
+    for k, src in enumerate(progs):
+        pth = scratch.fresh("urls_%d.py" % k, src.encode())
+        rj = C.run_cli(["-f", "json", "-q", pth])
+        rs = C.run_cli(["-f", "sarif", "-q", pth])
+        res.case("urls-in-reports:%d" % k, True)
+        res.count("urls-in-reports")
+        try:
+            jr = json.loads(rj["out"])["results"]
+            run_ = json.loads(rs["out"])["runs"][0]
+            rules = run_["tool"]["driver"].get("rules", [])
+            sr = run_["results"]
+        except Exception as e:
+            res.violation("no JSON / SARIF report for a plain program", {"kind": "program", "program": src, "error": str(e)[:200]})
+            continue
+        bad = []
+        for x in jr:
+            e = reg.get(x["test_id"])
+            if e is None or x.get("more_info") != e["url"]:            # (test_name is the name of the check FUNCTION: `blacklist` for every blacklist rule — not compared)
+                bad.append({"format": "json", "test_id": x["test_id"], "test_name": x.get("test_name"), "more_info": x.get("more_info"), "registered": e and {"name": e["name"], "url": e["url"]}})
+        for x in sr:
+            i = x.get("ruleIndex")
+            d = rules[i] if isinstance(i, int) and 0 <= i < len(rules) else None
+            e = reg.get(x.get("ruleId"))
+            if d is None or e is None or d.get("id") != x.get("ruleId") or d.get("helpUri") != e["url"]:
+                bad.append({"format": "sarif", "ruleId": x.get("ruleId"), "ruleIndex": i, "descriptor": d and {k_: d.get(k_) for k_ in ("id", "name", "helpUri")},
+                            "registered": e and {"name": e["name"], "url": e["url"]}})
+        if len(sr) != len(jr):
+            bad.append({"format": "sarif", "findings": len(sr), "json_findings": len(jr)})
+        if bad:
+            res.violation("a finding in a report does not resolve to the id / name / documentation URL of its registered check", {"kind": "program", "program": src, "mismatches": bad[:6]})
 
 
 def check_published_pairs(res, pub, scratch):
